@@ -4,11 +4,15 @@ import os, sys, subprocess, json, glob, re
 src = sys.argv[1]
 args = [a for a in sys.argv[2:] if not a.startswith('--')]
 allprops = '--all-props' in sys.argv
-specs = args or sorted(os.path.relpath(p, src)[:-5] for p in glob.glob(os.path.join(src, 'C*', '[AB].diff')))
+seeded_layout = os.path.exists(os.path.join(src, 'C01-A', 'patch.diff')) or any(os.path.exists(os.path.join(src, d, 'patch.diff')) for d in os.listdir(src))
+if seeded_layout:
+    specs = args or sorted(d for d in os.listdir(src) if os.path.exists(os.path.join(src, d, 'patch.diff')))
+else:
+    specs = args or sorted(os.path.relpath(p, src)[:-5] for p in glob.glob(os.path.join(src, 'C*', '[AB].diff')))
 assert subprocess.run(['git', '-C', '/repo', 'status', '--porcelain', '--untracked-files=no'], capture_output=True, text=True).stdout.strip() == '', '/repo not clean'
 for spec in specs:
-    pid = spec.split('/')[0]
-    diff = os.path.join(src, spec + '.diff')
+    pid = spec.split('/')[0].split('-')[0]
+    diff = os.path.join(src, spec, 'patch.diff') if seeded_layout else os.path.join(src, spec + '.diff')
     r = subprocess.run(['git', '-C', '/repo', 'apply', diff], capture_output=True, text=True)
     if r.returncode != 0:
         print(json.dumps({'mutant': spec, 'error': 'does not apply: ' + r.stderr[-200:]})); continue
